@@ -112,7 +112,7 @@ fn run_rounds(out: &mut Out, cfg: &HConfig, d: &mut Driver, dgrams: Vec<Dgram>, 
 
 pub fn run(ctx: &Ctx, out: &mut Out) {
     let mut rng = ctx.rng("C07");
-    crate::inproc::install_logger(log::LevelFilter::Warn, false);
+    crate::inproc::install_shard_logger(ctx.shard, out);
     if let Some(r) = &ctx.replay {
         crate::c09::replay_history(out, "C07", r);
         return;
